@@ -2,6 +2,7 @@ package drv
 
 import (
 	"bufio"
+	"bytes"
 	"encoding/json"
 	"fmt"
 	"os"
@@ -41,6 +42,10 @@ func TestScenarios(t *testing.T) {
 	defer out.Close()
 	skip := 0
 	fmt.Sscanf(os.Getenv("VERIF_SKIP"), "%d", &skip)
+	// continue the trace numbering of an earlier (crashed) run
+	if b, err := os.ReadFile(os.Getenv("VERIF_TRACES") + ".scn"); err == nil {
+		traceNo = bytes.Count(b, []byte("\n"))
+	}
 	prog := os.Getenv("VERIF_PROGRESS")
 	sc := bufio.NewScanner(f)
 	sc.Buffer(make([]byte, 1<<20), 1<<28)
@@ -57,21 +62,75 @@ func TestScenarios(t *testing.T) {
 		if prog != "" {
 			_ = os.WriteFile(prog, []byte(fmt.Sprintf("%d %s\n", idx, scn.Name)), 0o644)
 		}
-		runOne(t, idx, scn, out)
+		if scn.Policy != nil && scn.Policy.AllK && len(scn.Policy.Faults) > 0 {
+			base := scn
+			bp := *scn.Policy
+			bp.Faults = nil
+			bp.AllK = false
+			base.Policy = &bp
+			total := runOne(t, idx, -1, base, out)
+			ks := pickKs(total, scn.Policy.MaxK, scn.Policy.Seed)
+			for _, k := range ks {
+				v := scn
+				vp := *scn.Policy
+				vp.AllK = false
+				vp.Faults = append([]Fault(nil), scn.Policy.Faults...)
+				vp.Faults[0].At = k
+				v.Policy = &vp
+				runOne(t, idx, k, v, out)
+			}
+			continue
+		}
+		runOne(t, idx, -1, scn, out)
 	}
 	if prog != "" {
 		_ = os.WriteFile(prog, []byte("done\n"), 0o644)
 	}
 }
 
-func runOne(t *testing.T, idx int, scn Scenario, out *os.File) {
+// pickKs returns all fault positions 0..total, or an evenly spread sample of
+// at most maxK of them (always including both ends).
+func pickKs(total, maxK int, seed int64) []int {
+	var ks []int
+	if maxK <= 0 || total+1 <= maxK {
+		for k := 0; k <= total; k++ {
+			ks = append(ks, k)
+		}
+		return ks
+	}
+	off := int(seed % 7)
+	for i := 0; i < maxK; i++ {
+		k := (i*(total+1))/maxK + off%((total+1)/maxK+1)
+		if k > total {
+			k = total
+		}
+		if len(ks) == 0 || ks[len(ks)-1] != k {
+			ks = append(ks, k)
+		}
+	}
+	return ks
+}
+
+var traceNo int
+
+func runOne(t *testing.T, idx, k int, scn Scenario, out *os.File) (steps int) {
 	var deadlock any
+	no := traceNo
+	traceNo++
+	if side := os.Getenv("VERIF_TRACES"); side != "" {
+		if f, err := os.OpenFile(side+".scn", os.O_CREATE|os.O_WRONLY|os.O_APPEND, 0o644); err == nil {
+			b, _ := json.Marshal(map[string]any{"trace": no, "scn": idx, "k": k, "scenario": scn})
+			f.Write(append(b, '\n'))
+			f.Close()
+		}
+	}
 	func() {
 		defer func() { deadlock = recover() }()
 		synctest.Test(t, func(t *testing.T) {
-			log := Run(scn)
+			log, n := RunCount(scn)
+			steps = n
 			bw := bufio.NewWriter(out)
-			fmt.Fprintf(bw, "{\"ev\":\"reset\",\"i\":0,\"idx\":%d}\n", idx)
+			fmt.Fprintf(bw, "{\"ev\":\"reset\",\"i\":0,\"idx\":%d,\"scn\":%d,\"k\":%d}\n", no, idx, k)
 			bw.Flush()
 			if err := log.Write(out); err != nil {
 				t.Fatal(err)
@@ -79,6 +138,7 @@ func runOne(t *testing.T, idx int, scn Scenario, out *os.File) {
 		})
 	}()
 	if deadlock != nil {
-		fmt.Fprintf(out, "{\"ev\":\"bubble-deadlock\",\"i\":0,\"idx\":%d,\"msg\":%q}\n", idx, fmt.Sprint(deadlock))
+		fmt.Fprintf(out, "{\"ev\":\"bubble-deadlock\",\"i\":0,\"idx\":%d,\"msg\":%q}\n", no, fmt.Sprint(deadlock))
 	}
+	return steps
 }
